@@ -52,7 +52,14 @@ func symDAG(K int) []vnode {
 		n.subject = -1
 		kind := kindBlob
 		if i > 0 {
-			kind = verifrt.Choice(manifestKinds())
+			if verifrt.Param("force", 0) != 0 {
+				kind = kindManifest // fixed shape: blobs below, manifests above
+				if i < verifrt.Param("force", 0) {
+					kind = kindBlob
+				}
+			} else {
+				kind = verifrt.Choice(manifestKinds())
+			}
 		}
 		n.kind = kind
 		if kind == kindBlob {
